@@ -31,7 +31,7 @@ package redisemu
 //@ func resp3To2
 //@ prop C15
 //@ requires free convertible: respConvertible(val3)
-//@ modifies heap
+//@ modifies alloc map cell respValue orderedRespMap
 //@ ensures [C15] resp2: resp2(value)
 //@ ensures [C15] scalar: (istype(val3.data, respSimpleString) || istype(val3.data, respErrorString) || istype(val3.data, respInt) || istype(val3.data, respBulkString)) ==> value == val3
 //@ ensures [C15] bool: istype(val3.data, respBool) ==> istype(value.data, respInt) && unbox(value.data, respInt) == ite(unbox(val3.data, respBool), 1, 0)
@@ -43,33 +43,54 @@ package redisemu
 
 //@ func resp3ArrayToResp2
 //@ prop C15
-//@ modifies heap
+//@ modifies alloc map cell respValue orderedRespMap
 //@ ensures [C15] len: len(a) == len(val)
 //@ ensures [C15] resp2: all(j, 0, len(a), resp2(a[j]))
 //@ loop "for _, e := range val" invariant len(a) == ri1 && all(j, 0, ri1, resp2(a[j]))
 
 //@ func resp3PairsToResp2
 //@ prop C15
-//@ modifies heap
+//@ modifies alloc map cell respValue orderedRespMap
 //@ ensures [C15] len: len(a) == 2*len(val)
 //@ ensures [C15] resp2: all(j, 0, len(a), resp2(a[j]))
 //@ loop "for _, pair := range val" invariant len(a) == 2*ri1 && all(j, 0, 2*ri1, resp2(a[j]))
 
 //@ func resp3SetToResp2
 //@ prop C15
-//@ modifies heap
+//@ modifies alloc map cell respValue orderedRespMap
 //@ ensures [C15] resp2: all(j, 0, len(a), resp2(a[j]))
 //@ loop "for e := range val" invariant all(j, 0, len(a), resp2(a[j]))
 
 //@ func resp3MapToResp2
 //@ prop C15
-//@ modifies heap
+//@ modifies alloc map cell respValue orderedRespMap
 //@ ensures [C15] len: len(a) == 2*len(val.orderedRespMap.order)
 //@ ensures [C15] resp2: all(j, 0, len(a), resp2(a[j]))
 //@ loop "for _, rk := range val.order" invariant len(a) == 2*ri1 && all(j, 0, 2*ri1, resp2(a[j]))
 
 //@ func resp3AttributeMapToResp2
 //@ prop C15
-//@ modifies heap
+//@ modifies alloc map cell respValue orderedRespMap
 //@ ensures free resp2: all(j, 0, len(a), resp2(a[j]))
 //@ note the resp2 clause of the attribute-map converter is assumed: its values pass through a local Go map whose contents are not modelled; no handler builds attribute maps
+
+//@ func orderedMap.mustGet
+//@ trusted lookup in the parsed-argument table
+//@ pure
+//@ func orderedMap.get
+//@ trusted lookup in the parsed-argument table
+//@ pure
+//@ func orderedMap.toNative
+//@ trusted conversion of the parsed-argument table
+//@ pure
+
+// HELLO switches the protocol of this connection only, and only to 2 or 3
+//@ func fnHello
+//@ prop C15
+//@ requires ctxOK(ctx)
+//@ modifies clientState.respVersion alloc map
+//@ ensures [C15] version: ctx.cs.respVersion == old(ctx.cs.respVersion) || ctx.cs.respVersion == 2 || ctx.cs.respVersion == 3
+
+//@ func respValue.toNative
+//@ trusted conversion of a RESP value to plain Go values (tracing)
+//@ pure
